@@ -7,11 +7,15 @@ META = {'claimed': True,
                'EAGAIN rounds), EVERY ending (EOF, error, stall), EVERY body limit < 2^64, HEAD or not, and EVERY initial reader geometry: the model never Faults (no read/write outside an object) '
                'and no assert fails (C08_http_never_faults), the script-derived fuel is never exhausted (C08_http_terminates), exactly one callback is made unless the connection stalls with the '
                'request still pending (C08_http_one_callback*), and every response handed out has status in 100..599 and either a body of exactly bodylen <= limit bytes (NULL iff 0) or bodylen = '
-               '(size_t)(-1) with no buffer (C08_http_result_bounds, C08_cb_ok_meaning). Regression theorem for repaired defect F2 (the step without the NUL termination over-reads). Leak-freedom and '
+               '(size_t)(-1) with no buffer (C08_http_result_bounds, C08_cb_ok_meaning). Every well-formed response (HttpSpec.wf_response) whose body exceeds the limit produces, for every '
+               "segmentation, reader geometry and connection ending, exactly one callback carrying the response's status and headers, bodylen = (size_t)(-1) and no buffer "
+               '(C08_oversized_body_reported; per framing C08_oversized_clen/_chunked/_close; both sides of the limit C08_limit_respected); for streams that are not well-formed responses only the '
+               'shape of the result is proved (C08_http_result_bounds). Checked memory covers the chunk-size parse object, the addbody copy bound and the unwritten `chunked` field; the other '
+               'accesses are in-window by construction with their asserts. 13 theorems. Regression theorem for repaired defect F2 (the step without the NUL termination over-reads). Leak-freedom and '
                "'none if cancelled' are outside the model: decided by the correspondence run (real http.c+netbuf+network+events, scripted kernel, ASan+LeakSanitizer per forked case, cancel at every "
                "step) which also compares implementation and model on hostile/truncated/mutated streams and evaluates the bounds predicate on the implementation's callback data.",
  'level_note': 'Trusted: Coq kernel; hand-written model bound by differential execution; sscanf of the status line and strtoumax modelled per glibc 2.36 (DESIGN Appendix A, sampled on every run); '
                "netbuf reader per C07; memory-safety is of the model's checked memory (the C's is observed under ASan); leaks and cancellation by LeakSanitizer only. Print Assumptions: closed under "
-               'the global context.',
+               "the global context. Allocation failure is not in this model (the die() paths are C14's subject).",
  'trusted_base': ['Gallina model of sscanf("HTTP/%d.%d %d") and strtoumax per glibc 2.36', 'tools/extract/x_http.py', 'scripted kernel'],
  'assumptions': ['the reader starts in a state netbuf_read can be in (rdr_ok; the init state is shown to satisfy it)']}
